@@ -89,6 +89,7 @@ def configs(draw, reps):
 
 class CrossProcess(Facet):
     name = "cross_process"
+    fuzz_runs = 0  # every case spawns processes: too slow for a coverage-guided campaign
     reps = ("tree", "ge", "sge", "dsge")
 
     def budget(self, tier):
